@@ -39,3 +39,10 @@ PROPS = {
         kinds=('postcondition', 'precondition', 'trait-contract', 'invariant', 'decreases'),
     ),
 }
+
+COMMON_ASSUMPTIONS = [
+    'A1 pointer/memory model of prelude/vbase.vrs: address = integer, provenance ignored, memory reachable through the given slices is immutable during a call',
+    'A4 little-endian composition of multi-byte unaligned loads; usize = 64 bit',
+    'A5 std specs assumed in the prelude (assume_specification items listed in trusted_base)',
+    'A7 the extractor rules X1-X12 (tool/xform.py) preserve semantics; Verus, Z3 are trusted',
+]
